@@ -28,7 +28,7 @@ def ref_shape(build, vs):
     elif build == "cycle":
         es = list(zip(vs, vs[1:])) + [(vs[0], vs[-1])]
     else:
-        raise ValueError(build)
+        es = [tuple(e) for e in gc.SHAPES[build](vs)]
     return sorted(sorted(e) for e in es)
 
 
@@ -116,6 +116,24 @@ class C03(Prop):
                     jds[rng.randrange(N)][1] += 1
             builds = ["cycle"] + ["clique"] * (T - 1)
             kind = "fast" if rng.random() < 0.7 else "custom"
+        if i % 8 == 6:
+            # custom motifs with several orbits (a wedge: two leaves from one column, the centre from another; or leaf + centre
+            # + leaf from three columns): EVERY orbit's stub list is shuffled, independently of the others
+            kind = "custom"
+            N = rng.randint(4, 6)
+            if rng.random() < 0.6:
+                sizes, m = [2, 1], 2
+            else:
+                sizes, m = [1, 1, 1], 2
+            T = len(sizes)
+            jds = [[0] * T for _ in range(N)]
+            for k in range(T):
+                for _ in range(m * sizes[k]):
+                    jds[rng.randrange(N)][k] += 1
+            builds = ["path"]
+            case = {"kind": kind, "jds": jds, "sizes": sizes, "builds": builds, "handshake": True,
+                    "orbits": [list(range(T))], "names": [["w"] * 2]}
+            return case
         case = {"kind": kind, "jds": jds, "sizes": sizes, "builds": builds, "handshake": True}
         if kind == "fast":
             case["names"] = [f"t{k}" for k in range(T)]
@@ -185,12 +203,15 @@ class C03(Prop):
                         groups.append([k, arr[g:g + sizes[k]]])
             else:
                 for j, orb in enumerate(case["orbits"]):
-                    k = orb[0]
-                    st = gc.stubs_of(jds, k)
-                    arr = [st[i] for i in tup[k]]
-                    chunks = [arr[g:g + sizes[k]] for g in range(0, len(arr), sizes[k])]
-                    for ch in reversed(chunks):
-                        groups.append([j, ch])
+                    # a motif takes one chunk from every orbit column (the code pops them from the end), in orbit order
+                    per_col = []
+                    for k in orb:
+                        st = gc.stubs_of(jds, k)
+                        arr = [st[i] for i in tup[k]]
+                        per_col.append([arr[g:g + sizes[k]] for g in range(0, len(arr), sizes[k])])
+                    n_motifs = len(gc.stubs_of(jds, orb[0])) // sizes[orb[0]]
+                    for t in range(n_motifs):
+                        groups.append([j, [v for chunks in per_col for v in chunks[len(chunks) - 1 - t]]])
             ref[key_of(groups)] += 1
             ref_b[built_key(builds, [[t, ref_shape(builds[t], g)] for t, g in groups])] += 1
         return {"outs": outs, "hist": sorted(hist.items()), "ref": sorted(ref.items()),
